@@ -221,7 +221,10 @@ impl<'w> Gen for Gen12<'w> {
             0 => Op::Next { it },
             1 => Op::PeekN { it, n: rng.range(1, 4) },
             2 => Op::SetModeIter { it, mode: rng.below(self.m.n_modes(it)) },
-            3 => Op::SetOffset { it, offset: self.m.pick_boundary(rng, it, None) },
+            3 => {
+                let offset = self.m.pick_boundary(rng, it, None);
+                gen_reset(rng, it, offset)
+            }
             4 => Op::DropIter { it },
             5 => {
                 let sc = *rng.pick(&scs);
@@ -332,11 +335,12 @@ fn apply(f: &mut It<'_>, input: &str, n_modes: usize, last_peek: &mut Option<Vec
                 Err(p) => Obs::Panic(p),
             }
         }
-        Op::SetOffset { offset, .. } => {
+        Op::SetOffset { offset, .. } | Op::WithOffsetMid { offset, .. } => {
             if *offset > input.len() || !input.is_char_boundary(*offset) {
                 return None;
             }
-            match guarded(|| f.set_offset(*offset)) {
+            let mid = matches!(op, Op::WithOffsetMid { .. });
+            match guarded(|| if mid { f.with_offset_mid(*offset) } else { f.set_offset(*offset) }) {
                 Ok(()) => Obs::Unit,
                 Err(p) => Obs::Panic(p),
             }
@@ -559,7 +563,7 @@ impl<'w> Exec for Exec12<'w> {
                     Obs::Toks(_) => l.exhausted = true,
                     _ => {}
                 }
-                if matches!(op, Op::SetOffset { .. }) {
+                if matches!(op, Op::SetOffset { .. } | Op::WithOffsetMid { .. }) {
                     l.exhausted = false;
                 }
                 self.insts[my_inst].recs.push((idx, op.clone(), obs.clone()));
